@@ -31,6 +31,8 @@ type Sweep struct {
 	Deadline time.Duration
 	// EntryDeadline overrides Deadline for CPU-only entry points whose normal cost is microseconds
 	EntryDeadline map[string]time.Duration
+	// OnAbandon replaces the fixture of a store-touching entry point (set by the harness around such sweeps)
+	OnAbandon func()
 	pending  *Pending
 	idx      int
 	replay   *ReplayCase
@@ -137,7 +139,25 @@ func (s *Sweep) Case(entry, desc string, sharded, store bool, prep func() ([]byt
 	if d, ok := s.EntryDeadline[entry]; ok {
 		deadline = d
 	}
-	res = Call(deadline, f)
+	running := Start(f)
+	var grace time.Duration
+	res, finished := running.Wait(deadline)
+	if !finished {
+		// deadline passed: is the callee stuck or the machine loaded? Measure a fixed piece of work and keep waiting
+		// for the SAME call: grace = 1500 x the calibration time (about 10 ms on an idle core), at least 6 x the deadline, at most 200 s.
+		cal := Calibrate()
+		grace = 1500 * cal
+		if grace < 6*deadline {
+			grace = 6 * deadline
+		}
+		if grace > 200*time.Second {
+			grace = 200 * time.Second
+		}
+		res, finished = running.Wait(grace)
+		if finished {
+			s.R.Observation("slow-call:"+entry, map[string]any{"desc": desc, "seconds": res.Elapsed.Seconds(), "calibration_ms": cal.Seconds() * 1000})
+		}
+	}
 	if store {
 		s.pending.Clear()
 	}
@@ -166,25 +186,40 @@ func (s *Sweep) Case(entry, desc string, sharded, store bool, prep func() ([]byt
 		what += ": " + res.Value + " [case " + truncate(desc, 120) + "]"
 		s.R.Violation(s.Prop+"|"+entry+"|"+res.Site, what, mk())
 	case res.TimedOut:
-		// reproduce: the statement is about non-termination, a single slow call proves nothing
+		// reproduce: the statement is about non-termination, a single stuck call proves nothing. Store-touching
+		// entry points are reproduced on a fresh fixture (the abandoned call may still hold the store's lock).
 		n := 1
-		for k := 0; k < 2; k++ {
-			if again := Call(deadline, f); again.TimedOut {
+		if store && s.OnAbandon == nil {
+			n = 0
+		}
+		for k := 0; k < 2 && n > 0; k++ {
+			if store {
+				s.OnAbandon()
+			}
+			_, f2 := prep()
+			if _, ok := Start(f2).Wait(grace); !ok {
 				n++
 			} else {
 				break
 			}
 		}
+		if n == 3 && Calibrate() > 150*time.Millisecond {
+			// the worker itself is stalled (a 10 ms piece of work takes more than 150 ms): no verdict
+			n = -1
+		}
+		if store && s.OnAbandon != nil {
+			s.OnAbandon()
+		}
 		if n == 3 {
 			s.R.Outcome(entry + ":TIMEOUT")
-			s.R.Violation(s.Prop+"|"+entry+"|timeout", fmt.Sprintf("%s did not return within %s (reproduced 3x) [case %s]", entry, deadline, truncate(desc, 120)), mk())
+			s.R.Violation(s.Prop+"|"+entry+"|timeout", fmt.Sprintf("%s did not return within %s (reproduced 3x, each time on a fresh fixture) [case %s]", entry, grace, truncate(desc, 120)), mk())
 			s.hung[entry] = true
 			// the abandoned goroutines keep running (and possibly allocating): end this worker's sweep as soon as possible
 			s.stop = true
 			s.R.NotExhaustive("sweep of this worker ended after a reproduced time-out in " + entry)
 		} else {
-			s.R.Observation("inconclusive-timeout:"+entry, map[string]any{"desc": desc, "timeouts": n})
-			s.R.NotExhaustive("a call exceeded its deadline once but did not reproduce (inconclusive): " + entry)
+			s.R.Observation("inconclusive-timeout:"+entry, map[string]any{"desc": desc, "timeouts": n, "waited_s": grace.Seconds()})
+			s.R.NotExhaustive("a call did not return within its grace period but did not reproduce (inconclusive): " + entry)
 		}
 	case strings.HasPrefix(res.Outcome, "!"):
 		// the call itself judged another clause of the statement (e.g. "!state-changed: ...")
